@@ -315,3 +315,4 @@ def shape(line):
 def nontrivial(line, out):
     res, frames = split_out(out)
     return len(frames) > 0
+from ties import of as _tie_of; TIE_LAYOUTS, TIE_PINS, TIE_ENUMS = _tie_of("C04")   # static-tie lemmas (coq/Gen/Tie) this property depends on
